@@ -17,6 +17,7 @@ import c_proj
 import c_metric
 import c_approx
 import c_arc
+import c_look
 import re
 import sym
 
@@ -355,6 +356,65 @@ def unit_arc(src, prop):
     return u
 
 
+def unit_C09i(src):
+    """twin of C09: the inherent (deprecated) Matrix3::look_at / Matrix4::look_at"""
+    u = Unit('C09i', src, 'R')
+    lib, F = full_base(u, 'Rad')
+    u.spec_texts.append(lib.text())
+    u.spec_texts.append(c_metric.text_specs())
+    u.spec_texts.append(c_look.text_specs())
+    u.contract_fns.insert(0, c_metric.contracts)
+    c_metric.select(u)
+    u.contract_fns.insert(0, c_look.contracts)
+    c_look.select(u, None, inherent_look_at=True)
+    own = lambda im, f: im is not None and f.name == 'look_at'
+    u.assume_pred = lambda im, f: not own(im, f)
+    return u
+
+
+def unit_C09(src, k):
+    I = c_xform.INST[k]
+    u = Unit('C09' + k, src, 'R')
+    lib, F = full_base(u, 'Rad')
+    space = r'Point2<S>' if k == 'b2' else r'Point3<S>'
+    if k == 'b2':
+        for sel in u.sels:
+            if sel.trait == 'Transform' and sel.trait_args == r'Point3<S>':
+                sel.trait_args = r'Point2<S>'
+    c_conv.build(lib, F)
+    u.spec_texts.append(lib.text())
+    u.spec_texts.append(c_conv.text_specs())
+    u.spec_texts.append(c_metric.text_specs())
+    u.spec_texts.append(c_xform.text_specs(k))
+    u.spec_texts.append(c_look.text_specs())
+    rh, rp = c_rot.shape_hints(F)
+    u.contract_fns.insert(0, c_rot.contracts(rh, 'Rad'))
+    c_rot.select_c06(u)
+    hints, polys = c_conv.shape_hints(F)
+    u.contract_fns.insert(0, c_conv.contracts(hints, 'Rad'))
+    c_conv.select(u)
+    u.contract_fns.insert(0, c_metric.contracts)
+    c_metric.select(u)
+    u.contract_fns.insert(0, c_xform.contracts(k))
+    c_xform.select(u, k)
+    u.dec_kind = k
+    u.contract_fns.insert(0, c_look.contracts)
+    c_look.select(u, space)
+    u.scoped_subst.append((lambda im: 'Decomposed' in im.header, {'P': 'P_', 'R': 'R_', 'V': 'V_'}))
+    u.assoc_fix.update({'P_::Diff': 'V_', 'P_::Scalar': 'Sc'})
+    u.extra_prelude.append('verus! {\npub type P_ = %s;\npub type R_ = %s;\npub type V_ = %s;\n}\n' % (I['P'], I['R'], I['V']))
+    u.trait_extras['Transform'] = dict(
+        decl_items='spec fn xf_ok(&self) -> bool;',
+        requires={'inverse_transform': ['$0.xf_ok()'], 'inverse_transform_vector': ['$0.xf_ok()']},
+        impl_items=lambda im: ('open spec fn xf_ok(&self) -> bool { self.rot.inv_ok() }' if 'Decomposed' in im.selfty else 'open spec fn xf_ok(&self) -> bool { true }'))
+    own = lambda im, f: im is not None and f.name.startswith('look_')
+    u.assume_pred = lambda im, f: not own(im, f)
+    if k == 'q':
+        u.lemma_texts.append(sym.HELPER_LEMMAS)
+        add_laws(u, c_look.laws(F))
+    return u
+
+
 def trait_name_of(im):
     from emit import trait_name
     return trait_name(im.trait)
@@ -372,7 +432,7 @@ def build_C03(src, tier):
     return [unit_C03(src, 'R')]
 
 
-UNITS = {'C15': lambda src, tier: [unit_arc(src, 'C15')], 'C14': lambda src, tier: [unit_arc(src, 'C14')], 'C18': lambda src, tier: [unit_C18(src)], 'C11': lambda src, tier: [unit_C11(src)], 'C10': lambda src, tier: [unit_C10(src, 'Rad'), unit_C10(src, 'Deg')], 'C08': lambda src, tier: [unit_C08(src, 'q'), unit_C08(src, 'b3'), unit_C08(src, 'b2')], 'C05': lambda src, tier: [unit_conv(src, 'C05', 'Rad')], 'C07': lambda src, tier: [unit_conv(src, 'C07', 'Rad'), unit_conv(src, 'C07', 'Deg')], 'C06': lambda src, tier: [unit_C06(src, 'Rad'), unit_C06(src, 'Deg')], 'C13': lambda src, tier: [unit_C13(src, 'R')], 'C04': lambda src, tier: [unit_C04(src, 'R')], 'C02': lambda src, tier: [unit_C02(src, 'R'), unit_C02t(src)], 'C01': lambda src, tier: [unit_C01(src, 'R'), unit_C01t(src, 'R')], 'C03': build_C03, 'C12': lambda src, tier: [unit_C12(src, 'R')]}
+UNITS = {'C09': lambda src, tier: [unit_C09(src, 'q'), unit_C09(src, 'b3'), unit_C09(src, 'b2'), unit_C09i(src)], 'C15': lambda src, tier: [unit_arc(src, 'C15')], 'C14': lambda src, tier: [unit_arc(src, 'C14')], 'C18': lambda src, tier: [unit_C18(src)], 'C11': lambda src, tier: [unit_C11(src)], 'C10': lambda src, tier: [unit_C10(src, 'Rad'), unit_C10(src, 'Deg')], 'C08': lambda src, tier: [unit_C08(src, 'q'), unit_C08(src, 'b3'), unit_C08(src, 'b2')], 'C05': lambda src, tier: [unit_conv(src, 'C05', 'Rad')], 'C07': lambda src, tier: [unit_conv(src, 'C07', 'Rad'), unit_conv(src, 'C07', 'Deg')], 'C06': lambda src, tier: [unit_C06(src, 'Rad'), unit_C06(src, 'Deg')], 'C13': lambda src, tier: [unit_C13(src, 'R')], 'C04': lambda src, tier: [unit_C04(src, 'R')], 'C02': lambda src, tier: [unit_C02(src, 'R'), unit_C02t(src)], 'C01': lambda src, tier: [unit_C01(src, 'R'), unit_C01t(src, 'R')], 'C03': build_C03, 'C12': lambda src, tier: [unit_C12(src, 'R')]}
 import kani_driver
 KANI = kani_driver.GROUPS
 from meta import META
